@@ -95,6 +95,19 @@ def _getters_tally(t):
     return g
 
 
+_FOREIGN = {}
+
+
+def _foreign(name):
+    """an event type of another class that merely has the same name as a statistics data event"""
+    if name not in _FOREIGN:
+        from pydsol.core.pubsub import EventType
+        ns = {}
+        exec(f"class C09Sensor_{name}:\n    T = EventType({name!r})\n", {"EventType": EventType}, ns)
+        _FOREIGN[name] = ns[f"C09Sensor_{name}"].T
+    return _FOREIGN[name]
+
+
 def _safe_getters(ctx, t, counter, where, only=None):
     """call every getter individually so that one raising does not hide the others"""
     from vlib.base import fx
@@ -216,7 +229,8 @@ def run_case(case, ctx):
                 pass
             if case["entry"] == "notify":
                 # a notification that is not a data event for this statistic is an invalid observation as well
-                for what, ev in (("weight-event", Event(StatEvents.WEIGHT_DATA_EVENT, 3)), ("tuple-content", Event(StatEvents.DATA_EVENT, (1, 2)))):
+                for what, ev in (("weight-event", Event(StatEvents.WEIGHT_DATA_EVENT, 3)), ("tuple-content", Event(StatEvents.DATA_EVENT, (1, 2))),
+                                 ("foreign-type-of-the-same-name", Event(_foreign("DATA_EVENT"), 1000))):
                     ctx.count("malformed_notifications")
                     try:
                         t.notify(ev)
